@@ -87,6 +87,21 @@ def wholeMonths (y1 m1 d1 y2 m2 d2 : Int) : Int :=
   if dateLt y2 m2 d2 y1 m1 d1 then - wholeMonthsFwd y2 m2 d2 y1 m1 d1
   else wholeMonthsFwd y1 m1 d1 y2 m2 d2
 
+/-- The month `n` months after (before, for negative `n`) the month `m` of year `y`. -/
+def monthShift (y m n : Int) : Int × Int :=
+  let k := 12 * y + (m - 1) + n
+  (k / 12, k % 12 + 1)
+
+/-- A date plus `n` months (XSD `dateTime + yearMonthDuration`, FEEL `date + years and months duration`): the
+month is shifted, the day of the month is kept — clamped to the last day of the target month. -/
+def addMonths (y m d n : Int) : Int × Int × Int :=
+  let t := monthShift y m n
+  (t.1, t.2, min d (daysInMonth t.1 t.2))
+
+/-- The day of the month does not fit the month `n` months away (the addition clamps). -/
+def addMonthsClamps (y m d n : Int) : Bool :=
+  decide (daysInMonth (monthShift y m n).1 (monthShift y m n).2 < d)
+
 /-- Components of a days-and-time duration of `|n|` nanoseconds. -/
 def durDays (n : Int) : Int := n.natAbs / nsPerDay
 def durHours (n : Int) : Int := (n.natAbs % nsPerDay) / nsPerHour
